@@ -4,7 +4,7 @@ from ..common import *
 from .. import proofgate, composer, widgets, protocol
 from .. import jubjub as J
 
-THEOREMS = ["C14_rows_give_steps", "C14_step_sound", "C14_fixed_base_sound", "C14_canonical_emits", "C14_canonical_sound", "C14_mulgen_emits", "C14_mulgen_sound", "C14_mulgen_in_system"]
+THEOREMS = ["C14_rows_give_steps", "C14_step_sound", "C14_fixed_base_sound", "C14_canonical_emits", "C14_canonical_sound", "C14_mulgen_emits", "C14_mulgen_sound", "C14_mulgen_in_system", "C14_mulgen_scalar_multiple"]
 FIRST = 6
 
 def e(p, z=1): return " ".join(hx(v) for v in J.ext(p, z))
@@ -194,9 +194,9 @@ def run(ck):
                          {"failing_input_found": False, "correspondence": "L1 widget formula tie (ecc/scalar_mul/fixed_base)", "tuple": line, "impl": a, "model": b, "theorems_no_longer_tied": THEOREMS})
     return ck.finish(level="proof",
         rule="generators {GENERATOR, GENERATOR_NUMS, random prime-order} x canonical scalars {0,1,2,3,r_j-1,r_j-2,(r_j-1)/2,2^251,random} (honest: layout = model, point = [s]G, rows satisfied) and non-canonical witnesses {r_j, r_j+1, 2^252-1, 2^252, r-1, random >= r_j} (entry point must return JubJubScalarMalformed); the digit seam with honest NAF, digits of another scalar, digits touching the three leading rows, digits encoding scalar + BLS modulus / + JubJub order, non-canonical witness with its own digits, unsupported digit; on real layouts: forged accumulators / xy_alpha / output, digit 2 replacing (1,0) with accumulators re-derived by the widget formulas, digits of s + r_j; rows of the theorem blocks (fb_block, canonical_blk) compared with the real rows; L1 tie of the fixed-base widget",
-        assumptions=["PrimeR, NonSquareD", "the returned point is proved to be the signed-digit combination sum_i d_i [2^i]G with integer sum_i d_i 2^i = s; that this equals [s]G needs the group law (associativity), which is not mechanised: checked against native multiplication",
+        assumptions=["PrimeR, NonSquareD: class arguments of the statements, both proved closed in Props/Hypotheses.v", "the returned point is proved to be the signed-digit combination sum_i d_i [2^i]G with integer sum_i d_i 2^i = s, and (C14_mulgen_scalar_multiple, using the proved associativity) equal to the integer multiple [s]G; also compared with native multiplication",
                      "table points [2^i]G are on the curve when G is (closure theorem); their equality with native doublings is checked by the L3 tie of the q_l/q_r/q_c selectors"],
-        checker_cmd=proofgate.CHECKER_CMD, trusted_base=proofgate.TRUSTED + ["Hypothesis NonSquareD (Jubjub d is a quadratic non-residue) in the statements of C12-C14"])
+        checker_cmd=proofgate.CHECKER_CMD, trusted_base=proofgate.TRUSTED)
 
 def digits_raw(z):
     ds = []; k = z
